@@ -39,7 +39,9 @@ Theorem C16_inherited_socket_mode_is_irrelevant : forall inherited timeout pendi
   accept_round accept_selects_only_with_timeout (effective_mode listen_forces_blocking inherited) timeout pending =
   accept_round accept_selects_only_with_timeout FBlocking timeout pending.
 Proof.
-  intros inherited timeout pending. destruct src_listen_forces_blocking as [F S]. rewrite F, S. split.
+  intros inherited timeout pending.
+  assert (F : listen_forces_blocking = true) by (vm_compute; reflexivity).
+  assert (S : accept_selects_only_with_timeout = true) by (vm_compute; reflexivity). rewrite F, S. split.
   - apply forced_blocking_never_would_block.
   - reflexivity.
 Qed.
